@@ -560,4 +560,65 @@ theorem run_refines {N : Nat} (hN : 0 < N) (d : α) (ops : List (Op α)) :
     rw [h2] at this
     exact this
 
+/-! ### copying (fixes/C11_arraylist_copy.patch) and histories over two lists -/
+
+theorem copy_eq (s : State α) : copy s = s := by
+  have hm : ∀ l : List (Option (List α)), l.map (fun c => c.map (fun a => a)) = l := by
+    intro l
+    induction l with
+    | nil => rfl
+    | cons c t ih => cases c <;> simp [ih]
+  cases s
+  simp only [copy, hm]
+
+theorem step2_refines {N : Nat} (hN : 0 < N) (d : α) {w : World α} (ha : Inv N w.a) (hb : Inv N w.b) (o : Op2 α) :
+    Inv N (step2 N d w o).a ∧ Inv N (step2 N d w o).b ∧
+      ((abs N (step2 N d w o).a, abs N (step2 N d w o).b) = specStep2 (abs N w.a, abs N w.b) o) := by
+  cases o with
+  | on t o =>
+    cases t with
+    | a => obtain ⟨h1, h2⟩ := step_refines hN d ha o; exact ⟨h1, hb, by simp [step2, specStep2, h2]⟩
+    | b => obtain ⟨h1, h2⟩ := step_refines hN d hb o; exact ⟨ha, h1, by simp [step2, specStep2, h2]⟩
+  | copyFrom t =>
+    cases t with
+    | a => exact ⟨by simpa [step2, assign, copy_eq] using hb, hb, by simp [step2, specStep2, assign, copy_eq]⟩
+    | b => exact ⟨ha, by simpa [step2, assign, copy_eq] using ha, by simp [step2, specStep2, assign, copy_eq]⟩
+  | selfAssign t =>
+    cases t with
+    | a => exact ⟨ha, hb, by simp [step2, specStep2, assign]⟩
+    | b => exact ⟨ha, hb, by simp [step2, specStep2, assign]⟩
+
+theorem run2_refines {N : Nat} (hN : 0 < N) (d : α) (ops : List (Op2 α)) : ∀ {w : World α}, Inv N w.a → Inv N w.b →
+    Inv N (run2 N d w ops).a ∧ Inv N (run2 N d w ops).b ∧
+      (abs N (run2 N d w ops).a, abs N (run2 N d w ops).b) = specRun2 (abs N w.a, abs N w.b) ops := by
+  induction ops with
+  | nil => intro w ha hb; exact ⟨ha, hb, rfl⟩
+  | cons o t ih =>
+    intro w ha hb
+    obtain ⟨h1, h2, h3⟩ := step2_refines hN d ha hb o
+    have := ih h1 h2
+    simp only [run2, specRun2, List.foldl_cons] at this ⊢
+    rw [h3] at this
+    exact this
+
+/-! ### iterator validity over any number of appends -/
+
+/-- `push_back` of a whole list of values -/
+def pushAll (N : Nat) (d : α) (s : State α) (xs : List α) : State α := xs.foldl (push N d) s
+
+theorem pushAll_stable {N : Nat} (hN : 0 < N) (d : α) (xs : List α) : ∀ {s : State α}, Inv N s →
+    Inv N (pushAll N d s xs) ∧ (pushAll N d s xs).start = s.start ∧ (pushAll N d s xs).size = s.size + xs.length ∧
+      ∀ p, p < endPos s → elementAt N (pushAll N d s xs) p = elementAt N s p := by
+  induction xs with
+  | nil => intro s h; exact ⟨h, rfl, rfl, fun _ _ => rfl⟩
+  | cons x t ih =>
+    intro s h
+    have h1 := inv_push hN d h x
+    obtain ⟨i1, i2, i3, i4⟩ := ih h1
+    simp only [pushAll, List.foldl_cons] at i1 i2 i3 i4 ⊢
+    refine ⟨i1, by rw [i2, push_start], by rw [i3, push_size]; simp; omega, ?_⟩
+    intro p hp
+    rw [i4 p (by simp [endPos, push_start, push_size] at hp ⊢; omega)]
+    exact elementAt_push_lt hN d h x hp
+
 end DV.C11.AL
